@@ -21,6 +21,8 @@ def dispatch_scenario(rng: random.Random, *, family=None, with_invalid=True, sto
     """new / inst / filter / a random valid dispatch history with `snap` after every accepted dispatch,
     invalid requests injected at random positions, optionally reset + replay of the accepted history."""
     family, jobs = gen.gen_instance(rng, family, max_jobs=max_jobs, max_machines=max_machines, max_ops=max_ops)
+    if rng.random() < 0.05:
+        jobs, family = gen.make_huge(rng, jobs), family + "+huge"
     f = gen.gen_filter(rng) if flt == "random" else flt
     style = rng.choice(["uniform", "uniform", "one_job_first", "last_job_first"])
     lines = ["new", instance_line(jobs), gen.filter_line(f)]
